@@ -46,6 +46,20 @@ const RESULTS_END: Cell = Cell::end(BASE, n::LOAD_RESULTS);
 const COUNT_START: Cell = Cell::start(BASE, n::LOAD_ERROR_COUNT);
 const COUNT_END: Cell = Cell::end(BASE, n::LOAD_ERROR_COUNT);
 
+fn inner_window(i: Option<Inner>) -> [Cell; WINDOW] {
+    const X: Cell = Cell::NONE;
+    match i {
+        None => [Cell::nop(WINDOW as u8), X, X],
+        Some(Inner::Ok) => [cells::OK.with_skip(2), X, X],
+        Some(Inner::OkPair) => [cells::OK_START, cells::OK_END.with_skip(1), X],
+        Some(Inner::ErrError) => [ERR_ERROR_START, ERR_END.with_skip(1), X],
+        Some(Inner::ErrWarning) => [ERR_WARNING_START, ERR_END.with_skip(1), X],
+        Some(Inner::Count(k)) => [COUNT_START, Cell::text(t::N0 + k), COUNT_END],
+        Some(Inner::Comment) => [cells::COMMENT.with_skip(2), X, X],
+        Some(Inner::Other) => [cells::OTHER.with_skip(2), X, X],
+    }
+}
+
 fn push_inner(t: &mut Tape, i: Inner) {
     match i {
         Inner::Ok => t.push(cells::OK),
@@ -71,31 +85,83 @@ fn push_inner(t: &mut Tape, i: Inner) {
     }
 }
 
-/// C08, `load_configuration::Reply`: `<load-configuration-results>` with up to 3 inner items.
-#[kani::proof]
-#[kani::unwind(12)]
-#[kani::stub(<crate::message::rpc::Error as crate::message::ReadXml>::read_xml, crate::message::rpc::error::verif_error::stub_read_xml)]
-#[kani::stub(crate::message::rpc::Errors::new, crate::message::rpc::error::verif_error::stub_errors_new)]
-#[kani::stub(crate::message::rpc::Errors::push, crate::message::rpc::error::verif_error::stub_errors_push)]
-fn c08_load_configuration_reply() {
+/// First inner item of a split harness: `NoResults` = reply without
+/// `<load-configuration-results>`, `Empty` = empty results element, `First(k)` = the concrete
+/// item k followed by nothing or by one symbolic item.
+#[derive(Clone, Copy)]
+enum Split {
+    NoResults,
+    Empty,
+    /// first item and the family of the optional second one (`None` = any item)
+    First(Inner, Option<InnerFam>),
+}
+
+/// Items sharing an element name (see `Fam` in replies.rs).
+#[derive(Clone, Copy)]
+enum InnerFam {
+    Ok,
+    Err,
+    Count,
+    OkPair,
+    Comment,
+    Other,
+}
+
+fn member(f: InnerFam) -> Inner {
+    match f {
+        InnerFam::Ok => Inner::Ok,
+        InnerFam::Err => {
+            if kani::any() {
+                Inner::ErrError
+            } else {
+                Inner::ErrWarning
+            }
+        }
+        InnerFam::Count => {
+            let k: u8 = kani::any();
+            kani::assume(k <= 3);
+            Inner::Count(k)
+        }
+        InnerFam::OkPair => Inner::OkPair,
+        InnerFam::Comment => Inner::Comment,
+        InnerFam::Other => Inner::Other,
+    }
+}
+
+/// C08, `load_configuration::Reply`: `<load-configuration-results>` with up to 2 inner items,
+/// split on the first one (each split is decided on its own; together they cover every
+/// sequence of <= 2 inner items).
+fn load_reply_body(split: Split) {
     use_reply_tables();
-    let items: [Inner; N_INNER] = [Inner::Ok; N_INNER].map(|_| any_inner());
-    let n: usize = kani::any();
-    kani::assume(n <= N_INNER);
-    let with_results: bool = kani::any();
+    let (with_results, items, n): (bool, [Inner; N_INNER], usize) = match split {
+        Split::NoResults => (false, [Inner::Ok; N_INNER], 0),
+        Split::Empty => (true, [Inner::Ok; N_INNER], 0),
+        Split::First(k, fam) => {
+            let more: bool = kani::any();
+            let second = match fam {
+                None => any_inner(),
+                Some(f) => member(f),
+            };
+            (true, [k, second], if more { 2 } else { 1 })
+        }
+    };
+    // fixed-width windows, unconditional pushes: tape length and cursor positions stay constants
+    // for symex (see replies.rs::split_tape)
     let mut t = Tape::EMPTY;
     if with_results {
         t.push(RESULTS_START);
-        let mut i = 0;
-        while i < N_INNER {
-            if i < n {
-                push_inner(&mut t, items[i]);
-            }
-            i += 1;
+        if let Split::First(k, _) = split {
+            push_window(&mut t, inner_window(Some(k)));
+            push_window(&mut t, inner_window(if n == 2 { Some(items[1]) } else { None }));
         }
         t.push(RESULTS_END);
     }
     reply_close(&mut t);
+    load_reply_check(with_results, &items, n, t);
+    kani::cover!(!matches!(split, Split::First(..)) || n == 2, "the longest reply of this split reaches the checks");
+}
+
+fn load_reply_check(with_results: bool, items: &[Inner; N_INNER], n: usize, t: Tape) {
     tape::register(0, t);
     let mut reader = NsReader::from_str(tape::input_for(0));
     let _ = reader.trim_text(true);
@@ -143,8 +209,289 @@ fn c08_load_configuration_reply() {
         }
         Err(_) => {}
     }
-    kani::cover!(matches!(res, Ok(Reply::Ok)), "some reply is Ok");
-    kani::cover!(matches!(res, Ok(Reply::Errs(_))), "some reply is Errs");
-    kani::cover!(matches!(res, Ok(Reply::Ok)) && n_err > 0, "ok after a warning");
     std::mem::forget(res);
+}
+
+// C08 load-configuration, element sequences enumerated, leaf values symbolic (see the comment
+// on `for_each_sequence` in replies.rs).
+
+#[derive(Clone, Copy, PartialEq, Eq)]
+enum LK {
+    Ok,
+    Err,
+    Count,
+    OkPair,
+    Comment,
+    Other,
+}
+
+const LK_QUICK: [LK; 3] = [LK::Ok, LK::Err, LK::Count];
+const LK_FULL: [LK; 6] = [LK::Ok, LK::Err, LK::Count, LK::OkPair, LK::Comment, LK::Other];
+
+/// Push the inner element of kind `k`; `warning` / `count` are the symbolic leaf values (severity
+/// of an rpc-error, value 0..3 of a load-error-count).  The number of cells depends on `k` only.
+fn push_lk(t: &mut Tape, k: LK, warning: bool, count: u8) -> Inner {
+    match k {
+        LK::Err => {
+            t.push(Cell::start(BASE, n::RPC_ERROR).with_attrs(warning as u8, 0));
+            t.push(ERR_END);
+            if warning {
+                Inner::ErrWarning
+            } else {
+                Inner::ErrError
+            }
+        }
+        LK::Count => {
+            t.push(COUNT_START);
+            t.push(Cell::text(t::N0 + count));
+            t.push(COUNT_END);
+            Inner::Count(count)
+        }
+        LK::Ok => {
+            push_inner(t, Inner::Ok);
+            Inner::Ok
+        }
+        LK::OkPair => {
+            push_inner(t, Inner::OkPair);
+            Inner::OkPair
+        }
+        LK::Comment => {
+            push_inner(t, Inner::Comment);
+            Inner::Comment
+        }
+        LK::Other => {
+            push_inner(t, Inner::Other);
+            Inner::Other
+        }
+    }
+}
+
+fn any_count() -> u8 {
+    let c: u8 = kani::any();
+    kani::assume(c <= 3);
+    c
+}
+
+fn load_sequences<const N: usize>(kinds: &[LK; N]) {
+    use_reply_tables();
+    // no <load-configuration-results> at all, and an empty one
+    let mut t = Tape::EMPTY;
+    reply_close(&mut t);
+    load_reply_check(false, &[Inner::Ok; N_INNER], 0, t);
+    let mut t = Tape::EMPTY;
+    t.push(RESULTS_START);
+    t.push(RESULTS_END);
+    reply_close(&mut t);
+    load_reply_check(true, &[Inner::Ok; N_INNER], 0, t);
+    let mut i = 0;
+    while i < N {
+        let mut t1 = Tape::EMPTY;
+        t1.push(RESULTS_START);
+        let a = push_lk(&mut t1, kinds[i], kani::any(), any_count());
+        t1.push(RESULTS_END);
+        reply_close(&mut t1);
+        load_reply_check(true, &[a, Inner::Ok], 1, t1);
+        let mut j = 0;
+        while j < N {
+            let mut t2 = Tape::EMPTY;
+            t2.push(RESULTS_START);
+            let a = push_lk(&mut t2, kinds[i], kani::any(), any_count());
+            let b = push_lk(&mut t2, kinds[j], kani::any(), any_count());
+            t2.push(RESULTS_END);
+            reply_close(&mut t2);
+            load_reply_check(true, &[a, b], 2, t2);
+            j += 1;
+        }
+        i += 1;
+    }
+    kani::cover!(true, "all sequences walked");
+}
+
+#[kani::proof]
+#[kani::unwind(12)]
+#[kani::stub(<crate::message::rpc::Error as crate::message::ReadXml>::read_xml, crate::message::rpc::error::verif_error::stub_read_xml)]
+#[kani::stub(crate::message::rpc::Errors::new, crate::message::rpc::error::verif_error::stub_errors_new)]
+#[kani::stub(crate::message::rpc::Errors::push, crate::message::rpc::error::verif_error::stub_errors_push)]
+fn c08_load_reply_sequences() {
+    load_sequences(&LK_QUICK)
+}
+
+#[kani::proof]
+#[kani::unwind(12)]
+#[kani::stub(<crate::message::rpc::Error as crate::message::ReadXml>::read_xml, crate::message::rpc::error::verif_error::stub_read_xml)]
+#[kani::stub(crate::message::rpc::Errors::new, crate::message::rpc::error::verif_error::stub_errors_new)]
+#[kani::stub(crate::message::rpc::Errors::push, crate::message::rpc::error::verif_error::stub_errors_push)]
+fn c08_load_reply_sequences_full() {
+    load_sequences(&LK_FULL)
+}
+
+macro_rules! load_split_harnesses {
+    ($( $name:ident => $split:expr ),* $(,)?) => {
+        $(
+            #[kani::proof]
+            #[kani::unwind(12)]
+            #[kani::stub(<crate::message::rpc::Error as crate::message::ReadXml>::read_xml, crate::message::rpc::error::verif_error::stub_read_xml)]
+            #[kani::stub(crate::message::rpc::Errors::new, crate::message::rpc::error::verif_error::stub_errors_new)]
+            #[kani::stub(crate::message::rpc::Errors::push, crate::message::rpc::error::verif_error::stub_errors_push)]
+            fn $name() {
+                load_reply_body($split)
+            }
+        )*
+    };
+}
+
+load_split_harnesses!(
+    c08_load_reply_no_results => Split::NoResults,
+    c08_load_reply_empty_results => Split::Empty,
+    c08_load_reply_ok_then_ok => Split::First(Inner::Ok, Some(InnerFam::Ok)),
+    c08_load_reply_ok_then_err => Split::First(Inner::Ok, Some(InnerFam::Err)),
+    c08_load_reply_ok_then_count => Split::First(Inner::Ok, Some(InnerFam::Count)),
+    c08_load_reply_ok_then_ok_pair => Split::First(Inner::Ok, Some(InnerFam::OkPair)),
+    c08_load_reply_ok_then_comment => Split::First(Inner::Ok, Some(InnerFam::Comment)),
+    c08_load_reply_ok_then_other => Split::First(Inner::Ok, Some(InnerFam::Other)),
+    c08_load_reply_err_error_then_ok => Split::First(Inner::ErrError, Some(InnerFam::Ok)),
+    c08_load_reply_err_error_then_err => Split::First(Inner::ErrError, Some(InnerFam::Err)),
+    c08_load_reply_err_error_then_count => Split::First(Inner::ErrError, Some(InnerFam::Count)),
+    c08_load_reply_err_error_then_ok_pair => Split::First(Inner::ErrError, Some(InnerFam::OkPair)),
+    c08_load_reply_err_error_then_comment => Split::First(Inner::ErrError, Some(InnerFam::Comment)),
+    c08_load_reply_err_error_then_other => Split::First(Inner::ErrError, Some(InnerFam::Other)),
+    c08_load_reply_err_warning_then_ok => Split::First(Inner::ErrWarning, Some(InnerFam::Ok)),
+    c08_load_reply_err_warning_then_err => Split::First(Inner::ErrWarning, Some(InnerFam::Err)),
+    c08_load_reply_err_warning_then_count => Split::First(Inner::ErrWarning, Some(InnerFam::Count)),
+    c08_load_reply_err_warning_then_ok_pair => Split::First(Inner::ErrWarning, Some(InnerFam::OkPair)),
+    c08_load_reply_err_warning_then_comment => Split::First(Inner::ErrWarning, Some(InnerFam::Comment)),
+    c08_load_reply_err_warning_then_other => Split::First(Inner::ErrWarning, Some(InnerFam::Other)),
+    c08_load_reply_count0_then_ok => Split::First(Inner::Count(0), Some(InnerFam::Ok)),
+    c08_load_reply_count0_then_err => Split::First(Inner::Count(0), Some(InnerFam::Err)),
+    c08_load_reply_count0_then_count => Split::First(Inner::Count(0), Some(InnerFam::Count)),
+    c08_load_reply_count0_then_ok_pair => Split::First(Inner::Count(0), Some(InnerFam::OkPair)),
+    c08_load_reply_count0_then_comment => Split::First(Inner::Count(0), Some(InnerFam::Comment)),
+    c08_load_reply_count0_then_other => Split::First(Inner::Count(0), Some(InnerFam::Other)),
+    c08_load_reply_count1_then_ok => Split::First(Inner::Count(1), Some(InnerFam::Ok)),
+    c08_load_reply_count1_then_err => Split::First(Inner::Count(1), Some(InnerFam::Err)),
+    c08_load_reply_count1_then_count => Split::First(Inner::Count(1), Some(InnerFam::Count)),
+    c08_load_reply_count1_then_ok_pair => Split::First(Inner::Count(1), Some(InnerFam::OkPair)),
+    c08_load_reply_count1_then_comment => Split::First(Inner::Count(1), Some(InnerFam::Comment)),
+    c08_load_reply_count1_then_other => Split::First(Inner::Count(1), Some(InnerFam::Other)),
+    c08_load_reply_count2_then_ok => Split::First(Inner::Count(2), Some(InnerFam::Ok)),
+    c08_load_reply_count2_then_err => Split::First(Inner::Count(2), Some(InnerFam::Err)),
+    c08_load_reply_count2_then_count => Split::First(Inner::Count(2), Some(InnerFam::Count)),
+    c08_load_reply_count2_then_ok_pair => Split::First(Inner::Count(2), Some(InnerFam::OkPair)),
+    c08_load_reply_count2_then_comment => Split::First(Inner::Count(2), Some(InnerFam::Comment)),
+    c08_load_reply_count2_then_other => Split::First(Inner::Count(2), Some(InnerFam::Other)),
+    c08_load_reply_ok_pair_then_ok => Split::First(Inner::OkPair, Some(InnerFam::Ok)),
+    c08_load_reply_ok_pair_then_err => Split::First(Inner::OkPair, Some(InnerFam::Err)),
+    c08_load_reply_ok_pair_then_count => Split::First(Inner::OkPair, Some(InnerFam::Count)),
+    c08_load_reply_ok_pair_then_ok_pair => Split::First(Inner::OkPair, Some(InnerFam::OkPair)),
+    c08_load_reply_ok_pair_then_comment => Split::First(Inner::OkPair, Some(InnerFam::Comment)),
+    c08_load_reply_ok_pair_then_other => Split::First(Inner::OkPair, Some(InnerFam::Other)),
+    c08_load_reply_comment_then_ok => Split::First(Inner::Comment, Some(InnerFam::Ok)),
+    c08_load_reply_comment_then_err => Split::First(Inner::Comment, Some(InnerFam::Err)),
+    c08_load_reply_comment_then_count => Split::First(Inner::Comment, Some(InnerFam::Count)),
+    c08_load_reply_comment_then_ok_pair => Split::First(Inner::Comment, Some(InnerFam::OkPair)),
+    c08_load_reply_comment_then_comment => Split::First(Inner::Comment, Some(InnerFam::Comment)),
+    c08_load_reply_comment_then_other => Split::First(Inner::Comment, Some(InnerFam::Other)),
+    c08_load_reply_first_other => Split::First(Inner::Other, None),
+);
+
+/// C08, `load_configuration::Reply`, the sequence the defect repaired by 808e00a lived in:
+/// `<rpc-error>` of symbolic severity followed by `<ok/>`.  Everything but the severity is
+/// concrete, so this fits where the two-item splits above do not.
+#[kani::proof]
+#[kani::unwind(12)]
+#[kani::stub(<crate::message::rpc::Error as crate::message::ReadXml>::read_xml, crate::message::rpc::error::verif_error::stub_read_xml)]
+#[kani::stub(crate::message::rpc::Errors::new, crate::message::rpc::error::verif_error::stub_errors_new)]
+#[kani::stub(crate::message::rpc::Errors::push, crate::message::rpc::error::verif_error::stub_errors_push)]
+fn c08_load_reply_error_then_ok() {
+    use_reply_tables();
+    let warning: bool = kani::any();
+    let mut t = Tape::EMPTY;
+    t.push(RESULTS_START);
+    t.push(Cell::start(BASE, n::RPC_ERROR).with_attrs(warning as u8, 0));
+    t.push(ERR_END);
+    t.push(cells::OK);
+    t.push(RESULTS_END);
+    reply_close(&mut t);
+    tape::register(0, t);
+    let mut reader = NsReader::from_str(tape::input_for(0));
+    let _ = reader.trim_text(true);
+    let start = BytesStart::from_id(n::RPC_REPLY);
+    let res = Reply::read_xml(&mut reader, &start);
+    match &res {
+        Ok(Reply::Ok) => assert!(warning, "C08 load-configuration: a reply carrying rpc-error(error) was reported as success"),
+        Ok(Reply::Errs(errs)) => {
+            assert!(errs.len() == 1 && ve::nth_severity(errs, 0) == Some(if warning { ve::SEV_WARNING } else { ve::SEV_ERROR }),
+                "C08 load-configuration: reported errors are not exactly the reply's rpc-errors");
+        }
+        Err(_) => {}
+    }
+    kani::cover!(matches!(res, Ok(Reply::Ok)), "a warning followed by <ok/> is a success");
+    std::mem::forget(res);
+}
+
+// =================================================================================================
+// C10: text / JSON configuration payloads.
+
+use crate::message::WriteXml;
+use quick_xml::writer::{self as wlog, WKind};
+
+fn any_payload() -> String {
+    // two bytes over an alphabet containing the XML metacharacters and a delimiter character
+    let mut s = String::with_capacity(2);
+    let mut i = 0;
+    while i < 2 {
+        let c: u8 = kani::any();
+        s.push(match c % 5 {
+            0 => '<',
+            1 => '&',
+            2 => '"',
+            3 => ']',
+            _ => 'a',
+        });
+        i += 1;
+    }
+    s
+}
+
+/// C10: a text or JSON configuration payload handed to `<load-configuration>` is caller
+/// *text*, not an XML fragment: it must go through the escaping text path (so that the server
+/// recovers it unchanged and the message stays well-formed), not be written raw.
+#[kani::proof]
+#[kani::unwind(50)]
+fn c10_load_configuration_text_payload_is_escaped() {
+    let payload = any_payload();
+    let json: bool = kani::any();
+    wlog::reset_log();
+    let mut w = quick_xml::Writer::new(Vec::new());
+    let r = if json {
+        LoadConfiguration { source: Config::new(payload.as_str(), Json, Merge) }.write_xml(&mut w)
+    } else {
+        LoadConfiguration { source: Config::new(payload.as_str(), Text, Merge) }.write_xml(&mut w)
+    };
+    assert!(r.is_ok(), "C10: serialisation failed");
+    let log = wlog::log();
+    assert!(!log.overflow);
+    let mut raw = false;
+    let mut carried = false;
+    let mut i = 0;
+    while i < wlog::WLOG_CAP {
+        if i < log.n {
+            let e = &log.entries[i];
+            match e.kind {
+                WKind::RawAccess => raw = true,
+                WKind::Text => {
+                    if e.escaped && e.text_len == 2 && e.text.as_slice() == payload.as_bytes() {
+                        carried = true;
+                    }
+                }
+                _ => {}
+            }
+        }
+        i += 1;
+    }
+    assert!(!raw, "C10 load-configuration: text/JSON payload written through the raw (unescaped) path");
+    assert!(carried, "C10 load-configuration: payload does not reach the message as escaped text with its exact value");
+    kani::cover!(json, "json payload");
+    kani::cover!(!json, "text payload");
+    std::mem::forget((w, payload));
 }
